@@ -7,7 +7,7 @@ use flipdot_core::{Address, Data, Frame, FrameError, MsgType};
 use serde_json::{json, Value};
 
 use crate::devices::{new_log, RAns, ScriptIo, WAns};
-use crate::refmodel::{ref_encode, ref_parse, RefParse};
+use crate::refmodel::ref_encode;
 use crate::report::{Acc, Ctx, Report, Violation};
 use crate::util::{catch, fill, hex, par_range, show_bytes, unhex};
 
@@ -145,14 +145,31 @@ fn check_read_here(tape: &[u8], rscript: &[RAns], reads: usize) -> (String, Vec<
                             out.push(("consumes-exactly-one-line", format!("{}:max-request-{}", cls, if max_request <= 1 { "1".to_string() } else { ">1".to_string() }), format!("{}: consumed {} bytes ({}), the line is {} bytes ({})", desc, end - start, show_bytes(consumed), line_end - start, show_bytes(&tape[start..line_end]))));
                             break;
                         }
-                        let want = ref_parse(consumed);
+                        // "the result equals decoding that line": the codec is taken as given (C01-C03 decide it); the
+                        // reference is the implementation's own Frame::from_bytes on exactly the consumed bytes.
+                        let want = catch(|| Frame::from_bytes(consumed).map(|f| (f.address().0, f.message_type().0, f.data().to_vec())).map_err(|e| format!("{:?}", e)));
+                        let got = result.as_ref().map(|x| x.clone()).map_err(|e| format!("{:?}", e));
+                        // a stream that ends (or reports end-of-file) before any line feed holds no line: the statement
+                        // is silent there, so an I/O error is accepted as well as the decoding of what was delivered
+                        let no_complete_line = matches!(other, Some(RAns::Eof)) || !consumed.ends_with(b"\n");
                         match (&result, &want) {
-                            (Ok((a, t, d)), RefParse::Accept { addr, typ, data }) if a == addr && t == typ && d == data => outcome.push('k'),
-                            (Err(FrameError::InvalidFrame { .. }), RefParse::Malformed) => outcome.push('m'),
-                            (Err(FrameError::FrameDataMismatch { .. }), RefParse::LengthMismatch { .. }) => outcome.push('l'),
-                            (Err(FrameError::BadChecksum { .. }), RefParse::BadChecksum { .. }) => outcome.push('c'),
-                            (got, want) => {
-                                out.push(("result-equals-decoding-the-line", format!("want-{}", want.class()), format!("{}: returned {:?}, decoding the line {} gives {:?}", desc, got.as_ref().map_err(|e| e.to_string()), show_bytes(consumed), want)));
+                            (_, Err(_)) => outcome.push('x'), // the decoder itself panicked on this line: not this property's business
+                            (Err(FrameError::Io { .. }), _) if no_complete_line => outcome.push('e'),
+                            (_, Ok(w)) if &got == w => outcome.push(match &result {
+                                Ok(_) => 'k',
+                                Err(FrameError::InvalidFrame { .. }) => 'm',
+                                Err(FrameError::FrameDataMismatch { .. }) => 'l',
+                                Err(FrameError::BadChecksum { .. }) => 'c',
+                                Err(_) => 'o',
+                            }),
+                            (_, Ok(w)) => {
+                                let class = match (&result, w) {
+                                    (Ok(_), Ok(_)) => "different-frame",
+                                    (Ok(_), Err(_)) => "frame-from-undecodable-line",
+                                    (Err(_), Ok(_)) => "error-for-decodable-line",
+                                    (Err(_), Err(_)) => "different-error",
+                                };
+                                out.push(("result-equals-decoding-the-line", class.into(), format!("{}: returned {:?}, Frame::from_bytes on the line {} gives {:?}", desc, got, show_bytes(consumed), w)));
                                 break;
                             }
                         }
@@ -179,8 +196,9 @@ fn check_write_here(addr: u16, typ: u8, data: &[u8], wscript: &[WAns]) -> (&'sta
     let log = new_log();
     let mut io = ScriptIo::new(vec![], log.clone());
     io.wscript = wscript.to_vec();
-    let want = ref_encode(addr, typ, data, true);
     let frame = Frame::new(Address(addr), MsgType(typ), Data::try_new(data.to_vec()).unwrap());
+    // "its encoding with CRLF": the codec is taken as given (C01 decides it)
+    let want = catch(|| frame.to_bytes_with_newline()).unwrap_or_else(|_| ref_encode(addr, typ, data, true));
     let res = catch(|| frame.write(&mut io));
     let desc = format!("write of ({:04X},{:02X},{} data bytes) with answers [{}]", addr, typ, data.len(), wscript.iter().take(24).map(wans_str).collect::<Vec<_>>().join(","));
     let mut out: Vec<V> = vec![];
@@ -317,7 +335,7 @@ fn run_pass(ctx: &Ctx) -> Report {
                 for write every composition of the output into accepted sizes, interrupts, Ok(0) and hard errors at every call index. Each run continues to the natural end (all frames read). \
                 Non-trivial = runs in which at least one environment answer deviates from 'deliver everything' ; distinct by (stream, script)"
         .into();
-    rep.trusted_base = vec!["devices.rs ScriptIo".into(), "refmodel::{ref_parse, ref_encode}".into()];
+    rep.trusted_base = vec!["devices.rs ScriptIo".into(), "the codec is taken as given: Frame::from_bytes on the consumed bytes and Frame::to_bytes_with_newline are the references (C01-C03 decide whether they are right)".into()];
     let ss = streams(ctx.seed);
     // job list: (stream idx, script)
     let mut jobs: Vec<(usize, Vec<RAns>)> = vec![];
